@@ -493,12 +493,25 @@ def build_decl(case, shadow=False):
         else:
             a = _generic(ann["g"], [types[i] for i in ann["args"]])
         holder = utype.Schema if kind == "field" else utype.DataClass
+        if w.get("fwd"):
+            # the whole annotation is the NAME of something defined further down in the module: resolved lazily, the
+            # Field(...) constraints are kept with the pending reference (base.py _resolve_forward_refs)
+            global _FWD_COUNT
+            _FWD_COUNT += 1
+            name = f"_FwdTarget{_FWD_COUNT}"
+            S = type("S", (holder,), {"__annotations__": {"x": name}, "x": utype.Field(**cs), "__module__": __name__})
+            globals()[name] = a
+            S.__parser__.resolve_forward_refs(ignore_errors=False)    # (an illegal declaration shows up here instead of at class creation)
+            ft = S.__parser__.fields["x"].type
+            ft = getattr(ft, "__forward_value__", None) or ft
+            return ft, S
         S = type("S", (holder,), {"__annotations__": {"x": a}, "x": utype.Field(**cs), "__module__": __name__})
         return S.__parser__.fields["x"].type, S
     raise ValueError(kind)
 
 
 _MISSING = object()
+_FWD_COUNT = 0
 
 
 def visible(case):
@@ -719,6 +732,61 @@ def decl_contexts(T, v):
         "field:Union[T,U]": run(lambda: field(typing.Union[T, U]), wrap=lambda x: {"x": x}, unwrap=lambda r: r["x"]),
         "field:List[T]": run(lambda: field(typing.List[T]), wrap=lambda x: {"x": [x]}, unwrap=lambda r: r["x"][0] if len(r["x"]) == 1 else r["x"]),
     }
+    # the slots of a @utype.parse function: parameter, return value, and the Yield / Send types of (async) generators —
+    # a value of T's origin type that goes through the slot reaches the other side unchanged exactly when T accepts it
+    import asyncio
+
+    def slot(kind, eager=False):
+        class X:
+            def __init__(self, _):
+                pass
+
+            def __new__(cls, x):
+                received = []
+                if kind == "param":
+                    def f(x):
+                        return x
+                    f.__annotations__ = {"x": T}
+                    return utype.parse(f, eager=eager)(x)
+                if kind == "return":
+                    def f(x):
+                        return x
+                    f.__annotations__ = {"return": T}
+                    return utype.parse(f, eager=eager)(x)
+                if kind == "yield":
+                    def f(x):
+                        yield x
+                    f.__annotations__ = {"return": typing.Generator[T, None, None]}
+                    return next(utype.parse(f, eager=eager)(x))
+                if kind == "send":
+                    def f():
+                        while True:
+                            got = yield 1
+                            received.append(got)
+                    f.__annotations__ = {"return": typing.Generator[int, T, None]}
+                    g = utype.parse(f, eager=eager)()
+                    next(g)
+                    g.send(x)
+                    return received[0]
+                if kind == "asend":
+                    async def f():
+                        while True:
+                            got = yield 1
+                            received.append(got)
+                    f.__annotations__ = {"return": typing.AsyncGenerator[int, T]}
+
+                    async def drive():
+                        g = utype.parse(f, eager=eager)()
+                        await g.__anext__()
+                        await g.asend(x)
+                        await g.aclose()
+                    asyncio.run(drive())
+                    return received[0]
+                raise ValueError(kind)
+        return X
+    for kind in ("param", "return", "yield", "send", "asend"):
+        ctx["slot:" + kind] = run(lambda k=kind: slot(k))
+    ctx["slot:send(eager)"] = run(lambda: slot("send", True))
     return ctx
 
 
@@ -1489,6 +1557,9 @@ def gen_decl_case(rng):
             wrap = {"kind": kind, "ann": {"g": g, "args": argidx}, "cs": ordinary}
         else:
             wrap = {"kind": kind, "ann": "origin", "cs": ordinary}
+        if rng.random() < 0.4:
+            wrap["fwd"] = True          # annotation given by name, the name defined after the class
+            feats.append("fwd")
     if wrap is None and seqlike and any(x[0] == "__args__" for c in classes for x in c["attrs"]) and rng.random() < 0.6:
         # the same declaration with the element type given by PARAMETRISING the final (sub)class: T[item] / T[a, b] / T[item, ...]
         argidx = [o["o"] for c in classes for x in c["attrs"] if x[0] == "__args__" for o in x[1]["v"]["t"]]
@@ -2150,7 +2221,11 @@ class C02(Check):
     def _notes():
         from .common import LEAN
         p = LEAN / "Utv" / "Gen" / "NOTES.txt"
-        return [l for l in p.read_text().splitlines() if l.strip()] if p.exists() else ["Gen/NOTES.txt missing"]
+        if not p.exists():
+            return ["Gen/NOTES.txt missing"]
+        # only what these two properties' theorems are about (the translator serves other properties' functions as well)
+        mine = ("Constraints.", "functional.", "__constraints__", "TYPE_EXACT_TOLERANCE", "utils/functional.py")
+        return [l for l in p.read_text().splitlines() if l.strip() and any(m in l for m in mine)]
 
 
 CHECK = C02()
